@@ -9,21 +9,26 @@ INJECT : Kani function-contract attributes inserted above the exact signature li
 """
 
 def _mod(file, path, name, vis=""):
-    return dict(file=file, line='#[cfg(kani)] #[path = "%s"] %smod %s;' % (path, vis, name))
+    return dict(file=file, src=path.split("/")[-1], line='#[cfg(kani)] #[path = "%s"] %smod %s;' % (path, vis, name))
 
 MODULES = [
     _mod("src/lib.rs", "verif/verif_spec.rs", "verif_spec", "pub(crate) "),
     _mod("src/nested/zordercurve.rs", "../verif/verif_zoc.rs", "verif_zoc"),
     _mod("src/nested/mod.rs", "../verif/verif_uniq.rs", "verif_uniq"),
+    _mod("src/nested/mod.rs", "../verif/verif_nb.rs", "verif_nb"),
 ]
 
 def _c(file, anchor, *attrs, **kw):
-    d = dict(file=file, anchor=anchor, lines=["#[cfg_attr(kani, %s)]" % a for a in attrs])
+    d = dict(file=file, anchor=anchor, needs=None, lines=["#[cfg_attr(kani, %s)]" % a for a in attrs])
     d.update(kw)
     return d
 
 N = "src/nested/mod.rs"
 INJECT = [
+    # ---- codec layer (C01/C04/C10/C14 share it): encode of (base cell, i, j) ----------------------
+    _c(N, "  fn build_hash_from_parts(&self, d0h: u8, i: u32, j: u32) -> u64 {",
+       "kani::requires(self.depth <= 29 && d0h < 12 && i < self.nside && j < self.nside)",
+       "kani::ensures(|r: &u64| *r == crate::verif_spec::encode(self.depth, d0h, i, j))"),
     # ---- C18 uniq ------------------------------------------------------------------------------
     _c(N, "pub fn to_uniq(depth: u8, hash: u64) -> u64 {",
        "kani::requires(crate::verif_spec::valid_cell(depth, hash))",
@@ -33,8 +38,8 @@ INJECT = [
        "kani::ensures(|r: &u64| *r == crate::verif_spec::uniq_ivoa(depth, hash))"),
     _c(N, "pub fn from_uniq(uniq_hash: u64) -> (u8, u64) {",
        "kani::requires(verif_uniq::is_uniq(uniq_hash))",
-       "kani::ensures(|r: &(u8, u64)| crate::verif_spec::valid_cell(r.0, r.1) && crate::verif_spec::uniq(r.0, r.1) == uniq_hash)"),
+       "kani::ensures(|r: &(u8, u64)| crate::verif_spec::valid_cell(r.0, r.1) && crate::verif_spec::uniq(r.0, r.1) == uniq_hash)", needs="verif_uniq.rs"),
     _c(N, "pub fn from_uniq_ivoa(uniq_hash: u64) -> (u8, u64) {",
        "kani::requires(verif_uniq::is_uniq_ivoa(uniq_hash))",
-       "kani::ensures(|r: &(u8, u64)| crate::verif_spec::valid_cell(r.0, r.1) && crate::verif_spec::uniq_ivoa(r.0, r.1) == uniq_hash)"),
+       "kani::ensures(|r: &(u8, u64)| crate::verif_spec::valid_cell(r.0, r.1) && crate::verif_spec::uniq_ivoa(r.0, r.1) == uniq_hash)", needs="verif_uniq.rs"),
 ]
